@@ -317,9 +317,11 @@ func (idx *IVFIndex) Remove(vector VectorNode) error {
 	id := vector.ID()
 
 	// ════════════════════════════════════════════════════════════════════════
-	// STEP 1: CHECK EXISTENCE (READ LOCK - CHEAPER)
+	// STEP 1: CHECK EXISTENCE (under the write lock: check and mark must be one atomic step,
+	// otherwise a concurrent Remove+Flush between them leaves a tombstone for an id that is gone)
 	// ════════════════════════════════════════════════════════════════════════
-	idx.mu.RLock()
+	idx.mu.Lock()
+	defer idx.mu.Unlock()
 	exists := false
 	for _, list := range idx.lists {
 		for _, v := range list {
@@ -333,9 +335,8 @@ func (idx *IVFIndex) Remove(vector VectorNode) error {
 		}
 	}
 	alreadyDeleted := idx.deletedNodes.Contains(id)
-	idx.mu.RUnlock()
 
-	// Fast-fail validation outside of write lock
+	// Fast-fail validation
 	if !exists {
 		return fmt.Errorf("vector with ID %d not found", id)
 	}
@@ -344,11 +345,9 @@ func (idx *IVFIndex) Remove(vector VectorNode) error {
 	}
 
 	// ════════════════════════════════════════════════════════════════════════
-	// STEP 2: MARK AS DELETED (WRITE LOCK - ONLY FOR BITMAP UPDATE)
+	// STEP 2: MARK AS DELETED (same write-locked region)
 	// ════════════════════════════════════════════════════════════════════════
-	idx.mu.Lock()
 	idx.deletedNodes.Add(id)
-	idx.mu.Unlock()
 
 	return nil
 }
